@@ -286,6 +286,19 @@ fn c01(thorough: bool, rng: &mut Rng, out: &mut Out) {
         if out.impls[i] != hex_of(&want_nl) {
             out.fail(i, format!("C01 to_bytes_with_newline differs: got {} want {}", out.impls[i], hex_of(&want_nl)));
         }
+        // the human-readable form (what a bus monitor logs) names type, address and every data byte
+        let i = out.case(format!("fshow {:04X} {:02X} {}", a, t, to_hex(&d)), true);
+        out.stat("frame.display");
+        let mut text = format!("Type {:02X} | Addr {:04X}", t, a);
+        if !d.is_empty() {
+            text.push_str(" | Data ");
+            for b in &d {
+                text.push_str(&format!("{:02X} ", b));
+            }
+        }
+        if out.impls[i] != hex_of(text.as_bytes()) {
+            out.fail(i, format!("C01 Display of frame {:04X} {:02X} {} is not '{}'", a, t, to_hex(&d), text));
+        }
         let okline = format!("ok {:04X} {:02X} {}", a, t, to_hex(&d));
         for w in [&want, &want_nl] {
             let i = out.case(format!("dec {}", hex_of(w)), true);
@@ -373,6 +386,7 @@ pub const STRUCT_ALPHA: [u8; 23] = [
 fn c03(thorough: bool, rng: &mut Rng, out: &mut Out) {
     out.rule = "(i) every string of length <= L over the 23-symbol structural alphabet (L=3 quick, 4 thorough); (ii) the same strings spliced as prefix / suffix / infix into seed encodings; (iii) single substitutions / deletions / duplications of seed encodings; (iv) random byte strings <= 600 bytes and random multi-edits of valid encodings; (v) 26 multi-byte UTF-8 look-alikes (non-ASCII decimal digits, fullwidth hex letters / colon, Unicode separators, BOM) substituted for one or two bytes at, or inserted at, every position of the seed encodings; non-trivial = the string starts with ':' and is at least 11 bytes long (reaches past the first structural rejection); distinct = distinct case line".into();
     out.exhaustive_note = "(i) is enumerated completely".into();
+    neighbours_after_valid("C03", out);
     let maxlen = if thorough { 4 } else { 3 };
     // (i)
     let mut cur: Vec<Vec<u8>> = vec![vec![]];
@@ -711,6 +725,7 @@ fn faults(w: &[u8], full: bool, rng: &mut Rng) -> Vec<(String, Vec<u8>)> {
 
 fn c02(thorough: bool, rng: &mut Rng, out: &mut Out) {
     same_sum_pairs("C02", out);
+    neighbours_after_valid("C02", out);
     // a declared length of FF over more than 255 data pairs whose surplus sums to zero (so that the checksum is right
     // for the first 255 bytes): the declared length disagrees with the data
     for extra in [1usize, 2, 16, 256] {
@@ -1115,6 +1130,39 @@ pub fn soak(prop: &str, _thorough: bool, out: &mut Out) {
     if out.impls[i] != format!("ok {}", count * 521) {
         let got = out.impls[i].clone();
         out.fail(i, format!("{} after encoding {} maximum-size frames on one thread the codec gave '{}'", prop, count, got));
+    }
+}
+
+/// A valid line decoded, and right after it on the same thread every one-bit-off neighbour of that line (each position,
+/// each of the eight bits), then the valid line again: a decoder that recognises "the line it has just seen" by a
+/// comparison looser than byte equality (case folding by a bit mask, a masked compare, a hash of folded bytes) accepts
+/// a malformed neighbour as the remembered frame.  The verdict is the model's (whose decoder has no memory) and, where
+/// the neighbour is still a hex-digit case variant, the independent parser's.
+pub fn neighbours_after_valid(prop: &str, out: &mut Out) {
+    let seeds: Vec<Vec<u8>> = vec![
+        indep_enc(0x0010, 0x02, &[]),
+        indep_enc(0x1234, 0x00, &[0x9A, 0x0B, 0xC5]),
+        { let mut w = indep_enc(0x00AB, 0x04, &[0x20, 0x7F]); w.extend_from_slice(b"\r\n"); w },
+    ];
+    for w in seeds {
+        for pos in 0..w.len() {
+            for bit in 0..8u8 {
+                let mut x = w.clone();
+                x[pos] ^= 1 << bit;
+                let i0 = out.case(format!("dec {}", hex_of(&w)), true);
+                let i1 = out.case(format!("dec {}", hex_of(&x)), true);
+                out.stat("dec.one-bit-neighbour-right-after-valid");
+                if !out.impls[i0].starts_with("ok ") {
+                    out.fail(i0, format!("{} a valid line was not decoded", prop));
+                }
+                // a neighbour is accepted only when it is the same digits in the other case
+                let same_digits = x.len() == w.len() && x.iter().zip(w.iter()).all(|(a, b)| a == b || (a.is_ascii_hexdigit() && b.is_ascii_hexdigit() && a.eq_ignore_ascii_case(b)));
+                if out.impls[i1].starts_with("ok ") && !same_digits {
+                    let got = out.impls[i1].clone();
+                    out.fail(i1, format!("{} a malformed line one bit away from the line decoded just before it was accepted: '{}'", prop, &got[..got.len().min(80)]));
+                }
+            }
+        }
     }
 }
 
